@@ -64,7 +64,8 @@ def run_spec(pid, tier, spec, replay=None):
         cov.setdefault("states", len(classes))
         cov.setdefault("transitions", cov["evaluations"])
         cov.setdefault("traces_validated_against_impl", cov["evaluations"])
-    return c.finish(pid, tier, level, cov, agg.viol, spec["assumptions"], t0, seed, exhaustive=not timed_out and not bad, cannot_decide=cannot)
+    stopped = cov.get("stopped_after_repeated_hangs", 0) > 0
+    return c.finish(pid, tier, level, cov, agg.viol, spec["assumptions"], t0, seed, exhaustive=not timed_out and not bad and not stopped, cannot_decide=cannot)
 
 
 def do_replay(pid, spec, path):
